@@ -239,3 +239,7 @@ where
         }
     }
 }
+
+#[cfg(kani)]
+#[path = "/verif/kani/swimos_rocks_store/plane.rs"]
+mod verif_kani;
